@@ -15,13 +15,13 @@
       crates/vibesql-types/src/sql_mode/types.rs                 (division_result_type)
 
     Rust semantics made explicit:
-    - an unchecked [a + b] (and [-], [*], unary [-], [abs]) on a machine integer is
-      [Panic POverflow] under profile [Debug] (overflow checks on) and the two's-complement wrapped
-      value under profile [Release] (overflow checks off).  The theorems forbid the overflow itself,
-      so one side condition covers both builds;
-    - [i64::MIN % -1] and [x % 0] panic in BOTH profiles;
-    - [as] casts: [u64 as i64] reinterprets, [f64 as i64] truncates and saturates (NaN to 0),
-      [f64 as f32] rounds to nearest even;
+    - an UNCHECKED [a + b] on a machine integer is [Panic POverflow] under profile [Debug] (overflow
+      checks on) and the two's-complement wrapped value under profile [Release]; after the C24 fix
+      commits the operators use [checked_*] (an out-of-range result is an error in every build) and
+      the only unchecked additions left are the row counters of the aggregates and the dead
+      [i + 1] of calculate_next_value;
+    - [as] casts: [f64 as i64] truncates and saturates (NaN to 0), [f64 as f32] rounds to nearest even;
+      [u64 -> i64] is [i64::try_from] (an error above i64::MAX);
     - [unreachable!()] is [Panic PUnreachable];
     - slicing a [str] at a byte index inside a character is [Panic PCharBoundary];
     - [BTreeMap::range] panics when its precheck fails ([PRangeOrder], [PRangeEqualExcluded]).
@@ -35,7 +35,7 @@ Import ListNotations.
 Open Scope Z_scope.
 
 (** * Results *)
-Inductive err := ETypeMismatch | EDivisionByZero | EUnsupported.
+Inductive err := ETypeMismatch | EDivisionByZero | EUnsupported | EConversion.   (* EConversion: TypeConversionError *)
 Inductive panic :=
 | POverflow             (* "attempt to add/subtract/multiply/negate with overflow", "... remainder with overflow" *)
 | PDivZero              (* "attempt to calculate the remainder with a divisor of zero" *)
@@ -83,11 +83,16 @@ Definition i16_op (p : profile) (z : Z) : res Z :=
   if fits_i16 z then Ok z else match p with Debug => Panic POverflow | Release => Ok (wrap16 z) end.
 Definition u64_op (p : profile) (z : Z) : res Z :=
   if fits_u64 z then Ok z else match p with Debug => Panic POverflow | Release => Ok (z mod 2 ^ 64) end.
-(** [a % b] on i64: the two panics are unconditional (not governed by overflow-checks) *)
-Definition i64_rem (a b : Z) : res Z :=
-  if b =? 0 then Panic PDivZero
-  else if (a =? i64_min) && (b =? -1) then Panic POverflow
-  else Ok (Z.rem a b).
+(** [checked_add/sub/mul/neg/abs(..)] mapped to an error by the callers: the exact result or
+    [Err(UnsupportedFeature "... out of range")], in every build *)
+Definition checked_i64 (z : Z) : res Z := if fits_i64 z then Ok z else Err EUnsupported.
+Definition checked_i16 (z : Z) : res Z := if fits_i16 z then Ok z else Err EUnsupported.
+(** [a.checked_rem(b).unwrap_or(0)]: [None] for a zero divisor and for [i64::MIN % -1] *)
+Definition i64_rem (a b : Z) : Z :=
+  if (b =? 0) || ((a =? i64_min) && (b =? -1)) then 0 else Z.rem a b.
+(** [a.checked_div(b)] mapped to an out-of-range error ([None] for b = 0 and for [i64::MIN / -1]) *)
+Definition int_div (a b : Z) : res Z :=
+  if (b =? 0) || ((a =? i64_min) && (b =? -1)) then Err EUnsupported else Ok (Z.quot a b).
 
 (** * casting.rs *)
 Definition is_null (v : sqlvalue) : bool := match v with VNull => true | _ => false end.
@@ -101,20 +106,21 @@ Definition is_int3 (v : sqlvalue) : bool :=
   match v with VInteger _ | VSmallint _ | VBigint _ => true | _ => false end.
 Definition is_numeric_variant (v : sqlvalue) : bool := match v with VNumeric _ => true | _ => false end.
 
-(** [to_i64]: [None] stands for [Err(TypeMismatch)] *)
-Definition to_i64 (v : sqlvalue) : option Z :=
+(** [to_i64] *)
+Definition to_i64 (v : sqlvalue) : res Z :=
   match v with
-  | VSmallint n => Some n
-  | VInteger n => Some n
-  | VBigint n => Some n
-  | VUnsigned n => Some (wrap64 n)                 (* [*n as i64] reinterprets the bits *)
-  | VNumeric f => Some (f_to_i64 b64 f)
-  | VFloat f => Some (f_to_i64 b32 f)
-  | VReal f => Some (f_to_i64 b32 f)
-  | VDouble f => Some (f_to_i64 b64 f)
-  | VBoolean b => Some (if b then 1 else 0)
-  | _ => None
+  | VSmallint n => Ok n
+  | VInteger n => Ok n
+  | VBigint n => Ok n
+  | VUnsigned n => if n <=? i64_max then Ok n else Err EConversion   (* i64::try_from of the value *)
+  | VNumeric f => Ok (f_to_i64 b64 f)
+  | VFloat f => Ok (f_to_i64 b32 f)
+  | VReal f => Ok (f_to_i64 b32 f)
+  | VDouble f => Ok (f_to_i64 b64 f)
+  | VBoolean b => Ok (if b then 1 else 0)
+  | _ => Err ETypeMismatch
   end.
+Definition res_ok {A} (r : res A) : option A := match r with Ok v => Some v | _ => None end.   (* [.ok()] *)
 
 (** [to_f64] (bit pattern of the f64) *)
 Definition to_f64 (v : sqlvalue) : option Z :=
@@ -144,19 +150,16 @@ Definition opt_or {A} (a b : option A) : option A := match a with Some _ => a | 
 
 Definition coerce_numeric_values (l r : sqlvalue) : res coerced :=
   if is_boolean l || is_boolean r then
-    match opt_or (boolean_to_i64 l) (to_i64 l) with
+    match opt_or (boolean_to_i64 l) (res_ok (to_i64 l)) with
     | None => Err ETypeMismatch
     | Some li =>
-        match opt_or (boolean_to_i64 r) (to_i64 r) with
+        match opt_or (boolean_to_i64 r) (res_ok (to_i64 r)) with
         | None => Err ETypeMismatch
         | Some ri => Ok (CExact li ri)
         end
     end
   else if is_exact_numeric l && is_exact_numeric r then
-    match to_i64 l, to_i64 r with
-    | Some li, Some ri => Ok (CExact li ri)
-    | _, _ => Err ETypeMismatch
-    end
+    do li <- to_i64 l; do ri <- to_i64 r; Ok (CExact li ri)
   else if is_approximate_numeric l && is_approximate_numeric r then
     match to_f64 l, to_f64 r with
     | Some lf, Some rf => Ok (CApprox lf rf)
@@ -204,58 +207,55 @@ Section Operators.
     match v with VDate _ _ _ | VTimestamp _ _ _ _ _ _ _ | VVarchar _ | VCharacter _ => true | _ => false end.
 
   (** ** addition.rs: Addition::add *)
-  Definition add (p : profile) (l r : sqlvalue) : res sqlvalue :=
+  Definition add (l r : sqlvalue) : res sqlvalue :=
     if is_null l || is_null r then Ok VNull
     else
       match l, r with
-      | VInteger a, VInteger b => do z <- i64_op p (a + b); Ok (VInteger z)
+      | VInteger a, VInteger b => do z <- checked_i64 (a + b); Ok (VInteger z)
       | _, _ =>
           if (is_datelike l && is_interval r) || (is_interval l && is_datelike r) then temporal true l r
           else
             do c <- coerce_numeric_values l r;
             match c with
-            | CExact a b => do z <- i64_op p (a + b); Ok (VInteger z)
+            | CExact a b => do z <- checked_i64 (a + b); Ok (VInteger z)
             | CApprox a b => Ok (approximate_result l r (fadd b64 a b))
             | CNumeric a b => Ok (VNumeric (fadd b64 a b))
             end
       end.
 
   (** ** subtraction.rs: Subtraction::subtract *)
-  Definition subtract (p : profile) (l r : sqlvalue) : res sqlvalue :=
+  Definition subtract (l r : sqlvalue) : res sqlvalue :=
     if is_null l || is_null r then Ok VNull
     else
       match l, r with
-      | VInteger a, VInteger b => do z <- i64_op p (a - b); Ok (VInteger z)
+      | VInteger a, VInteger b => do z <- checked_i64 (a - b); Ok (VInteger z)
       | _, _ =>
           if is_datelike l && is_interval r then temporal false l r
           else if is_interval l && is_datelike r then Err EUnsupported
           else
             do c <- coerce_numeric_values l r;
             match c with
-            | CExact a b => do z <- i64_op p (a - b); Ok (VInteger z)
+            | CExact a b => do z <- checked_i64 (a - b); Ok (VInteger z)
             | CApprox a b => Ok (approximate_result l r (fsub b64 a b))
             | CNumeric a b => Ok (VNumeric (fsub b64 a b))
             end
       end.
 
   (** ** multiplication.rs: Multiplication::multiply *)
-  Definition multiply (p : profile) (l r : sqlvalue) : res sqlvalue :=
+  Definition multiply (l r : sqlvalue) : res sqlvalue :=
     if is_null l || is_null r then Ok VNull
     else
       match l, r with
-      | VInteger a, VInteger b => do z <- i64_op p (a * b); Ok (VInteger z)
+      | VInteger a, VInteger b => do z <- checked_i64 (a * b); Ok (VInteger z)
       | _, _ =>
           do c <- coerce_numeric_values l r;
           match c with
-          | CExact a b => do z <- i64_op p (a * b); Ok (VInteger z)
+          | CExact a b => do z <- checked_i64 (a * b); Ok (VInteger z)
           | CApprox a b => Ok (approximate_result l r (fmul b64 a b))
           | CNumeric a b => Ok (VNumeric (fmul b64 a b))
           end
       end.
 
-  (** [((a as f64) / (b as f64)).trunc() as i64] *)
-  Definition int_div_via_f64 (a b : Z) : Z :=
-    f_to_i64 b64 (ftrunc b64 (fdiv b64 (f_of_Z b64 a) (f_of_Z b64 b))).
 
   Definition coerced_right_is_zero (c : coerced) : bool :=
     match c with
@@ -274,7 +274,7 @@ Section Operators.
           else
             match division_result_type m l r with
             | TNumeric => Ok (VNumeric (fdiv b64 (f_of_Z b64 a) (f_of_Z b64 b)))
-            | TInteger => Ok (VInteger (int_div_via_f64 a b))
+            | TInteger => do z <- int_div a b; Ok (VInteger z)
             | TFloat => Panic PUnreachable
             end
       | _, _ =>
@@ -283,11 +283,13 @@ Section Operators.
           else
             match c, division_result_type m l r with
             | CExact a b, TNumeric => Ok (VNumeric (fdiv b64 (f_of_Z b64 a) (f_of_Z b64 b)))
-            | CExact a b, TInteger => Ok (VInteger (int_div_via_f64 a b))
+            | CExact a b, TInteger => do z <- int_div a b; Ok (VInteger z)
             | CApprox a b, TFloat => Ok (approximate_result l r (fdiv b64 a b))
             | CNumeric a b, TNumeric => Ok (VNumeric (fdiv b64 a b))
             | CNumeric a b, TFloat => Ok (VNumeric (fdiv b64 a b))
-            | _, _ => Panic PUnreachable
+            | CApprox a b, TNumeric => Ok (VNumeric (fdiv b64 a b))
+            | CExact a b, TFloat => Ok (VFloat (f32_of_f64 (fdiv b64 (f_of_Z b64 a) (f_of_Z b64 b))))
+            | _, _ => Err ETypeMismatch
             end
       end.
 
@@ -297,13 +299,13 @@ Section Operators.
     else
       match l, r with
       | VInteger a, VInteger b =>
-          if b =? 0 then Err EDivisionByZero else Ok (VInteger (int_div_via_f64 a b))
+          if b =? 0 then Err EDivisionByZero else do z <- int_div a b; Ok (VInteger z)
       | _, _ =>
           do c <- coerce_numeric_values l r;
           if coerced_right_is_zero c then Err EDivisionByZero
           else
             match c with
-            | CExact a b => Ok (VInteger (int_div_via_f64 a b))
+            | CExact a b => do z <- int_div a b; Ok (VInteger z)
             | CApprox a b => Ok (VInteger (f_to_i64 b64 (ftrunc b64 (fdiv b64 a b))))
             | CNumeric a b => Ok (VInteger (f_to_i64 b64 (ftrunc b64 (fdiv b64 a b))))
             end
@@ -315,26 +317,26 @@ Section Operators.
     else
       match l, r with
       | VInteger a, VInteger b =>
-          if b =? 0 then Ok VNull else do z <- i64_rem a b; Ok (VInteger z)
+          if b =? 0 then Ok VNull else Ok (VInteger (i64_rem a b))
       | _, _ =>
           do c <- coerce_numeric_values l r;
           if coerced_right_is_zero c then Ok VNull
           else
             match c with
-            | CExact a b => do z <- i64_rem a b; Ok (VInteger z)
+            | CExact a b => Ok (VInteger (i64_rem a b))
             | CApprox a b => Ok (approximate_result l r (frem b64 a b))
             | CNumeric a b => Ok (VNumeric (frem b64 a b))
             end
       end.
 
   (** ** operators/mod.rs: OperatorRegistry::eval_binary_op, arithmetic operators *)
-  Definition eval_binary_op (p : profile) (m : sqlmode) (l : sqlvalue) (op : binop) (r : sqlvalue) : res sqlvalue :=
+  Definition eval_binary_op (m : sqlmode) (l : sqlvalue) (op : binop) (r : sqlvalue) : res sqlvalue :=
     if is_null l || is_null r then Ok VNull
     else
       match op with
-      | BPlus => add p l r
-      | BMinus => subtract p l r
-      | BMultiply => multiply p l r
+      | BPlus => add l r
+      | BMinus => subtract l r
+      | BMultiply => multiply l r
       | BDivide => divide m l r
       | BIntegerDivide => integer_divide l r
       | BModulo => modulo l r
@@ -342,8 +344,8 @@ Section Operators.
 
   (** * select/grouping/aggregates.rs: SUM / AVG accumulation *)
   (** [add_sql_values]: the [+] operator in the default (MySQL) mode, an error becomes NULL *)
-  Definition add_sql_values (p : profile) (a b : sqlvalue) : res sqlvalue :=
-    match eval_binary_op p MySQL a BPlus b with
+  Definition add_sql_values (a b : sqlvalue) : res sqlvalue :=
+    match eval_binary_op MySQL a BPlus b with
     | Ok v => Ok v
     | Err _ => Ok VNull
     | Panic x => Panic x
@@ -365,7 +367,7 @@ Section Operators.
     if is_null v || negb (is_numeric_value v) then Ok st
     else if distinct && seen_contains (a_seen st) v then Ok st
     else
-      do s <- add_sql_values p (a_sum st) v;
+      do s <- add_sql_values (a_sum st) v;
       do c <- i64_op p (a_count st + 1);
       Ok {| a_sum := s ; a_count := c ; a_seen := if distinct then v :: a_seen st else a_seen st |}.
 
@@ -407,11 +409,11 @@ Definition unary_plus (v : sqlvalue) : res sqlvalue :=
   | _ => Err ETypeMismatch
   end.
 
-Definition unary_minus (p : profile) (v : sqlvalue) : res sqlvalue :=
+Definition unary_minus (v : sqlvalue) : res sqlvalue :=
   match v with
-  | VInteger n => do z <- i64_op p (- n); Ok (VInteger z)
-  | VSmallint n => do z <- i16_op p (- n); Ok (VSmallint z)
-  | VBigint n => do z <- i64_op p (- n); Ok (VBigint z)
+  | VInteger n => do z <- checked_i64 (- n); Ok (VInteger z)
+  | VSmallint n => do z <- checked_i16 (- n); Ok (VSmallint z)
+  | VBigint n => do z <- checked_i64 (- n); Ok (VBigint z)
   | VFloat n => Ok (VFloat (fneg b32 n))
   | VReal n => Ok (VReal (fneg b32 n))
   | VDouble n => Ok (VDouble (fneg b64 n))
@@ -421,12 +423,12 @@ Definition unary_minus (p : profile) (v : sqlvalue) : res sqlvalue :=
   end.
 
 (** * functions/numeric/basic.rs: ABS (one argument) and MOD (two arguments) *)
-Definition abs_fn (p : profile) (v : sqlvalue) : res sqlvalue :=
+Definition abs_fn (v : sqlvalue) : res sqlvalue :=
   match v with
   | VNull => Ok VNull
-  | VInteger n => do z <- i64_op p (Z.abs n); Ok (VInteger z)
-  | VBigint n => do z <- i64_op p (Z.abs n); Ok (VBigint z)
-  | VSmallint n => do z <- i16_op p (Z.abs n); Ok (VSmallint z)
+  | VInteger n => do z <- checked_i64 (Z.abs n); Ok (VInteger z)
+  | VBigint n => do z <- checked_i64 (Z.abs n); Ok (VBigint z)
+  | VSmallint n => do z <- checked_i16 (Z.abs n); Ok (VSmallint z)
   | VFloat n => Ok (VFloat (fabs b32 n))
   | VDouble n => Ok (VDouble (fabs b64 n))
   | VReal n => Ok (VReal (fabs b32 n))
@@ -436,32 +438,20 @@ Definition abs_fn (p : profile) (v : sqlvalue) : res sqlvalue :=
 Definition mod_fn (a b : sqlvalue) : res sqlvalue :=
   match a, b with
   | VNull, _ | _, VNull => Ok VNull
-  | VInteger x, VInteger y => if y =? 0 then Ok VNull else do z <- i64_rem x y; Ok (VInteger z)
+  | VInteger x, VInteger y => if y =? 0 then Ok VNull else Ok (VInteger (i64_rem x y))
   | VFloat x, VFloat y | VReal x, VReal y =>
       if fis_zero b32 y then Ok VNull else Ok (VFloat (frem b32 x y))
   | _, _ => Err EUnsupported
   end.
 
 (** * simd/aggregation.rs and select/columnar/simd_aggregate.rs *)
-(** [for i in remainder_start..len { sum += column[i] }] *)
-Fixpoint scalar_sum_i64 (p : profile) (sum : Z) (col : list Z) : res Z :=
-  match col with
-  | [] => Ok sum
-  | x :: rest => do s <- i64_op p (sum + x); scalar_sum_i64 p s rest
-  end.
-
-(** [simd_sum_i64]: [sum += arr[0] + arr[1] + arr[2] + arr[3]] per chunk of four, then the remainder *)
-Fixpoint simd_sum_i64_from (p : profile) (sum : Z) (col : list Z) {struct col} : res Z :=
-  match col with
-  | a0 :: a1 :: a2 :: a3 :: rest =>
-      do t1 <- i64_op p (a0 + a1);
-      do t2 <- i64_op p (t1 + a2);
-      do t3 <- i64_op p (t2 + a3);
-      do s <- i64_op p (sum + t3);
-      simd_sum_i64_from p s rest
-  | _ => scalar_sum_i64 p sum col
-  end.
-Definition simd_sum_i64 (p : profile) (col : list Z) : res Z := simd_sum_i64_from p 0 col.
+(** [simd_sum_i64_wide]: [column.iter().map(|&v| v as i128).sum()] — exact: a sum of fewer than 2^64
+    values of magnitude at most 2^63 stays within i128 *)
+Definition simd_sum_i64_wide (col : list Z) : Z := fold_right Z.add 0 col.
+(** [simd_sum_i64]: the wide sum, saturated at the i64 bounds *)
+Definition simd_sum_i64 (col : list Z) : Z :=
+  let wide := simd_sum_i64_wide col in
+  if fits_i64 wide then wide else if wide <? 0 then i64_min else i64_max.
 
 Fixpoint scalar_sum_f64 (sum : Z) (col : list Z) : Z :=
   match col with
@@ -485,7 +475,7 @@ Definition extract_i64 (v : sqlvalue) : res (option Z) :=
   | _ => Err EUnsupported
   end.
 
-(** the streaming loop of [simd_aggregate_i64] for SUM/AVG without a filter bitmap.
+(** the streaming loop of [simd_aggregate_i64] for SUM/AVG without a filter bitmap ([sum] is an i128).
     [batch] is kept in reverse order; [bsize] is BATCH_SIZE (1024 in the source). *)
 Fixpoint simd_agg_i64_loop (p : profile) (bsize : nat) (batch : list Z) (blen : nat) (sum count : Z)
          (vs : list sqlvalue) : res (list Z * Z * Z) :=
@@ -498,9 +488,8 @@ Fixpoint simd_agg_i64_loop (p : profile) (bsize : nat) (batch : list Z) (blen : 
       | Some z =>
           do c <- i64_op p (count + 1);
           if Nat.leb bsize (S blen) then
-            do bs <- simd_sum_i64 p (rev (z :: batch));
-            do s <- i64_op p (sum + bs);
-            simd_agg_i64_loop p bsize [] O s c rest
+            (* [sum: i128 += simd_sum_i64_wide(&batch)] *)
+            simd_agg_i64_loop p bsize [] O (sum + simd_sum_i64_wide (rev (z :: batch))) c rest
           else simd_agg_i64_loop p bsize (z :: batch) (S blen) sum c rest
       end
   end.
@@ -508,10 +497,10 @@ Fixpoint simd_agg_i64_loop (p : profile) (bsize : nat) (batch : list Z) (blen : 
 Definition simd_aggregate_i64 (p : profile) (bsize : nat) (op : aggop) (vs : list sqlvalue) : res sqlvalue :=
   do st <- simd_agg_i64_loop p bsize [] O 0 0 vs;
   let '(batch, sum, count) := st in
-  do sum' <- match batch with
-             | [] => Ok sum
-             | _ => do bs <- simd_sum_i64 p (rev batch); i64_op p (sum + bs)
-             end;
+  let sum' := match batch with
+              | [] => sum
+              | _ => sum + simd_sum_i64_wide (rev batch)
+              end in
   if count =? 0 then Ok VNull
   else match op with
        | AggSum => Ok (VDouble (f_of_Z b64 sum'))
@@ -604,20 +593,34 @@ Definition columnar_aggregate (p : profile) (bsize : nat) (op : aggop) (vs : lis
 (** * functions/string/substring.rs: SUBSTRING(string, start [, length]) *)
 Definition len (s : list Z) : Z := Z.of_nat (length s).
 Definition is_cont_byte (b : Z) : bool := (128 <=? b) && (b <? 192).
-(** [str::is_char_boundary] *)
-Definition is_char_boundary (s : list Z) (i : Z) : bool :=
-  (i =? 0) || (if i <? len s then negb (is_cont_byte (nth (Z.to_nat i) s 0)) else i =? len s).
-(** [&s[a..b]] *)
-Definition str_slice (s : list Z) (a b : Z) : res (list Z) :=
-  if (b <? a) || (len s <? b) || (a <? 0) then Panic PSliceIndex
-  else if is_char_boundary s a && is_char_boundary s b
-       then Ok (firstn (Z.to_nat (b - a)) (skipn (Z.to_nat a) s))
-       else Panic PCharBoundary.
+(** [str::chars] on the UTF-8 bytes: a character is a lead byte followed by its continuation bytes *)
+Fixpoint take_cont (s : list Z) : list Z * list Z :=
+  match s with
+  | b :: r => if is_cont_byte b then let '(c, r') := take_cont r in (b :: c, r') else ([], s)
+  | [] => ([], [])
+  end.
+Fixpoint utf8_chars_fuel (n : nat) (s : list Z) : list (list Z) :=
+  match n, s with
+  | S n', b :: r => let '(c, r') := take_cont r in (b :: c) :: utf8_chars_fuel n' r'
+  | _, _ => []
+  end.
+Definition utf8_chars (s : list Z) : list (list Z) := utf8_chars_fuel (length s) s.
+(** [Iterator::skip(n)] / [take(n)] with a [usize] count *)
+Fixpoint skipZ {A : Type} (n : Z) (l : list A) : list A :=
+  match l with
+  | [] => []
+  | _ :: r => if 0 <? n then skipZ (n - 1) r else l
+  end.
+Fixpoint takeZ {A : Type} (n : Z) (l : list A) : list A :=
+  match l with
+  | [] => []
+  | x :: r => if 0 <? n then x :: takeZ (n - 1) r else []
+  end.
 
 Definition str_of (v : sqlvalue) : option (list Z) :=
   match v with VVarchar s | VCharacter s => Some s | _ => None end.
 
-Definition substring (p : profile) (args : list sqlvalue) : res sqlvalue :=
+Definition substring (args : list sqlvalue) : res sqlvalue :=
   let go (sv st : sqlvalue) (lv : option sqlvalue) : res sqlvalue :=
     if is_null sv || is_null st || (match lv with Some VNull => true | _ => false end) then Ok VNull
     else
@@ -633,17 +636,12 @@ Definition substring (p : profile) (args : list sqlvalue) : res sqlvalue :=
                            end;
               (* [(start - 1) as usize] when start > 0, else 0 *)
               let start_idx := if 0 <? start then start - 1 else 0 in
-              if len s <=? start_idx then Ok (VVarchar [])
-              else
-                match length with
-                | Some l =>
-                    if l <=? 0 then Ok (VVarchar [])
-                    else
-                      do e <- u64_op p (start_idx + l);           (* usize addition, unchecked *)
-                      let end_idx := Z.min e (len s) in
-                      do r <- str_slice s start_idx end_idx; Ok (VVarchar r)
-                | None => do r <- str_slice s start_idx (len s); Ok (VVarchar r)
-                end
+              match length with
+              | Some l =>
+                  if l <=? 0 then Ok (VVarchar [])
+                  else Ok (VVarchar (concat (takeZ l (skipZ start_idx (utf8_chars s)))))
+              | None => Ok (VVarchar (concat (skipZ start_idx (utf8_chars s))))
+              end
           | _ => Err EUnsupported
           end
       end in
@@ -736,6 +734,13 @@ Definition value_gt (a b : sqlvalue) : bool := match pcmp a b with Some Gt => tr
 Definition both_excluded_equal (sb eb : bound) : bool :=
   match sb, eb with BExcluded s, BExcluded e => key_eqb s e | _, _ => false end.
 
+(** [start_slice > end_slice] on two bounded ends (the re-check of the multi-column path) *)
+Definition bounds_inverted (sb eb : bound) : bool :=
+  match sb, eb with
+  | BIncluded s, BIncluded e | BIncluded s, BExcluded e | BExcluded s, BIncluded e | BExcluded s, BExcluded e => key_gt s e
+  | _, _ => false
+  end.
+
 (** [multi]: the first key of the map has more than one element *)
 Definition range_plan (p : profile) (multi : bool) (start end_ : option sqlvalue) (incl_s incl_e : bool) : res plan :=
   let ns := option_map normalize_for_comparison start in
@@ -756,7 +761,9 @@ Definition range_plan (p : profile) (multi : bool) (start end_ : option sqlvalue
                                    | None => BUnbounded
                                    end
                     else BExcluded [e] in
-          if both_excluded_equal sk ek then Ok PlanEmpty else Ok (PlanRange sk ek)
+          if both_excluded_equal sk ek then Ok PlanEmpty
+          else if bounds_inverted sk ek then Ok PlanEmpty      (* re-check after the increment *)
+          else Ok (PlanRange sk ek)
         else
           let sk := if incl_s then BIncluded [s] else BExcluded [s] in
           let ek := if incl_e then BIncluded [e] else BExcluded [e] in
